@@ -45,7 +45,7 @@ int lrtr_ipv4_str_to_addr(const char *str, struct lrtr_ipv4_addr *ip)
 	if (sscanf(str, "%3hhu.%3hhu.%3hhu.%3hhu", &buff[0], &buff[1], &buff[2], &buff[3]) != 4)
 		return -1;
 
-	ip->addr = buff[0] << 24 | buff[1] << 16 | buff[2] << 8 | buff[3];
+	ip->addr = (uint32_t)buff[0] << 24 | buff[1] << 16 | buff[2] << 8 | buff[3];
 
 	return 0;
 }
